@@ -890,39 +890,64 @@ func ruleNewestCheckpoint(w *core.World, r *core.Report) {
 	if f == nil {
 		return
 	}
-	// comparisons between Offset fields and between Mtime fields
-	var offGT, offEQ, mtGT bool
-	var wrong []string
-	for _, in := range core.Instrs(f) {
-		b, ok := in.(*ssa.BinOp)
+	// the loop that visits the databases: the one calling fetchCheckpoint
+	var fetch core.Site
+	for _, s := range core.SitesNamed(f, false, "pkg/redis/checkpoint.fetchCheckpoint") {
+		fetch = s
+	}
+	if fetch.Instr == nil || core.LoopHeadOf(fetch.Instr.Block()) == nil {
+		r.Undecided("GetCheckpoint/newest", f.Pos(), "the loop over the databases (calling fetchCheckpoint) was not found")
+		return
+	}
+	head := core.LoopHeadOf(fetch.Instr.Block())
+	isCand := func(v ssa.Value) bool {
+		e, ok := core.Unwrap(v).(*ssa.Extract)
+		return ok && e.Index == 0 && e.Tuple == fetch.Value()
+	}
+	classify := func(p *core.Path, v ssa.Value) string {
+		ld, ok := core.Unwrap(p.Resolve(v)).(*ssa.UnOp)
+		if !ok || ld.Op != token.MUL {
+			return ""
+		}
+		fa, ok := ld.X.(*ssa.FieldAddr)
 		if !ok {
-			continue
+			return ""
 		}
-		fx, fy := fieldNameOfLoad(b.X), fieldNameOfLoad(b.Y)
-		if fx == "" || fx != fy {
-			continue
+		dim := map[string]string{"Offset": "A", "Mtime": "B"}[core.FieldName(fa)]
+		if dim == "" {
+			return ""
 		}
-		switch fx {
-		case "Offset":
-			switch b.Op {
-			case token.GTR, token.LSS:
-				offGT = true
-			case token.EQL:
-				offEQ = true
-			case token.GEQ, token.LEQ:
-				wrong = append(wrong, "offset compared with "+b.Op.String())
-			}
-		case "Mtime":
-			switch b.Op {
-			case token.GTR, token.LSS:
-				mtGT = true
-			default:
-				wrong = append(wrong, "mtime compared with "+b.Op.String())
+		base := core.Unwrap(p.Resolve(fa.X))
+		if isCand(base) {
+			return "c" + dim
+		}
+		return "b" + dim
+	}
+	// the best so far is replaced by a whole-record copy of the candidate
+	isReplace := func(in ssa.Instruction) bool {
+		st, ok := in.(*ssa.Store)
+		if !ok {
+			return false
+		}
+		ld, ok := st.Val.(*ssa.UnOp)
+		return ok && ld.Op == token.MUL && strings.HasSuffix(core.TypeName(ld.Type()), "checkpoint.CheckpointInfo")
+	}
+	rep, paths, okEnum := orderingTable(head, isReplace, classify)
+	if !okEnum || paths == 0 {
+		r.Undecided("GetCheckpoint/newest", f.Pos(), "no path of the loop replaces the best record by the candidate (paths=%d)", paths)
+		return
+	}
+	var wrong []string
+	names := []string{"<", "=", ">"}
+	for a := 0; a < 3; a++ {
+		for b := 0; b < 3; b++ {
+			want := a == 2 || (a == 1 && b == 2)
+			if rep[a][b] != want {
+				wrong = append(wrong, fmt.Sprintf("offset %s, mtime %s: replaced=%v", names[a], names[b], rep[a][b]))
 			}
 		}
 	}
-	ok := offGT && offEQ && mtGT && len(wrong) == 0
-	r.Check(ok, "GetCheckpoint/newest", f.Pos(), "expected strict offset comparison, offset equality and strict mtime comparison (found gt=%v eq=%v mtime=%v, odd=%v)", offGT, offEQ, mtGT, wrong)
+	r.Check(len(wrong) == 0, "GetCheckpoint/newest", head.Instrs[0].Pos(), "the record kept must be the one with the greatest offset, the newer modification time deciding equal offsets; decided over the nine orderings of (candidate offset ? best offset, candidate mtime ? best mtime), wrong for: %v", wrong)
 }
 
 func fieldNameOfLoad(v ssa.Value) string {
